@@ -103,6 +103,10 @@ def run(rep, tier, driver):
         rep.count("accepted" if r else "rejected")
         if m is None:
             continue
+        # the Model's three views must agree: first complete parse (what the walker consumes), recogniser with the Model's fuel,
+        # recogniser with twice the fuel (adequacy of the concrete fuel bound; C15_accept_iff quantifies over the fuel)
+        if m.get("any") is not None and not (m["any"] == m["any2"] == m["accepts"]):
+            rep.broken.append("Model views disagree on %r: first-parse %s, recogniser %s, recogniser with double fuel %s" % (s, m["accepts"], m["any"], m["any2"]))
         if m.get("accepts") != r:
             dis += 1
             if dis <= 5:
